@@ -336,6 +336,27 @@ def desugar_body(b, bodies, known_uses, log):
                 d = single_def(b, recv["p"]["l"]) if recv["k"] in ("move", "copy") and not recv["p"]["pr"] else None
                 if not (d and d[0] == "rv" and d[3]["k"] == "ref" and not d[3]["p"]["pr"]):
                     continue
+                # the iterator is borrowed, not consumed: if anything else also advances or reads it (a second any() on the same iterator, a
+                # later next()), what this call sees depends on that - such code is left as it is (and fails closed in the rules)
+                itl = d[3]["p"]["l"]
+                borrows = 0
+                for blk2 in b["blocks"]:
+                    if blk2.get("cleanup"):
+                        continue
+                    for st2 in blk2["stmts"]:
+                        if st2["k"] == "assign" and st2["rv"]["k"] in ("ref", "use"):
+                            acc2 = set()
+                            locals_in(st2["rv"], acc2)
+                            if itl in acc2:
+                                borrows += 1
+                    t2 = blk2["term"]
+                    if t2 is not None and t2["k"] == "call":
+                        acc2 = set()
+                        locals_in(t2["args"], acc2)
+                        if itl in acc2:
+                            borrows += 1
+                if borrows != 1:
+                    continue
                 src = {"k": "move", "p": copy.deepcopy(d[3]["p"])}
             if src["k"] not in ("move", "copy"):
                 continue
@@ -922,7 +943,9 @@ def calls_of(b):
                 yield bi, t, fn
 
 
-def reaches_itself(path, bodies, limit=200):
+def reaches_itself(path, bodies, limit=200, known=None):
+    """recursion among functions that would all be spliced (a cycle through a function of the reference inventory is that function's own
+    recursion: splicing the new helper into it is still exact)"""
     seen, st = set(), [path]
     n = 0
     while st and n < limit:
@@ -937,6 +960,8 @@ def reaches_itself(path, bodies, limit=200):
                 continue
             if h["path"] == path:
                 return True
+            if known is not None and h["path"] in known:
+                continue
             if h["path"] not in seen:
                 seen.add(h["path"])
                 st.append(h["path"])
@@ -945,7 +970,7 @@ def reaches_itself(path, bodies, limit=200):
 
 def inline_unknown(data, bodies, known, log):
     unknown = [p for p, g in bodies.items() if p not in known and not is_closure(g) and g.get("kind") in ("Fn", "AssocFn") and not g.get("derived")
-               and not reaches_itself(p, bodies)]
+               and not reaches_itself(p, bodies, known=known)]
     unknown = set(unknown)
     if not unknown:
         return set()
